@@ -168,7 +168,7 @@ func c15Render(c *Config) string {
 
 func TestVerifC15Sources(t *testing.T) {
 	L := ev.Begin("C15", "c15-sources", "exploration",
-		"the option list is derived from config/load.go at check time (every f.<Kind>Var registration); per option two well-formed values of its kind (grammar-specific values for validated options; for free-form strings also the empty string and values that begin or end with a quote). (1) equivalence: the value given on the command line, as FABIO_NAME, fabio_name, FaBiO_NaMe, plain NAME and in a properties file yields six reflect.DeepEqual configurations that differ from the default; (2) precedence: for every option and every ordered pair of the four source classes with two different values the result equals the higher source alone. non-trivial = every (option, value, source) triple")
+		"the option list is derived from config/load.go at check time (every f.<Kind>Var registration); per option two well-formed values of its kind (grammar-specific values for validated options; for free-form strings also the empty string and values that begin or end with a quote). (1) equivalence: the value given on the command line, as FABIO_NAME, fabio_name, FaBiO_NaMe, plain NAME and in a properties file yields six reflect.DeepEqual configurations that differ from the default; (2) precedence: for every option and every ordered pair of the four source classes with two different values the result equals the higher source alone; (3) an ill-typed value (duration without unit, number with a letter) for every typed option as FABIO_NAME and in the properties file is refused with an error, as it is on the command line, not skipped. non-trivial = every (option, value, source) triple")
 	opts := c15Options()
 	// values that are easy to lose on the way: the empty string, and values that begin or end with a quote
 	opts = append(opts,
@@ -279,6 +279,36 @@ func TestVerifC15Sources(t *testing.T) {
 						L.Violation("precedence-violated:"+classes[hi]+"-over-"+classes[lo], map[string]interface{}{"option": o.name, "higher": classes[hi] + "=" + vh, "lower": classes[lo] + "=" + vl, "err": fmt.Sprint(e1, e2, pm1, pm2), "diff": c15Diff(alone, both)})
 					}
 				}
+			}
+		}
+	}
+	// (3) a value that is not of the option's kind (a duration without a unit, a number with a letter in it): on the
+	// command line fabio refuses to start. The same value under the option's own names - FABIO_NAME and the properties
+	// file - must not be skipped silently, leaving the default (for a timeout: no limit) in force
+	bad := map[string]string{"Bool": "maybe", "Int": "5x", "Uint": "-5", "Duration": "5", "Float64": "0.5x", "FloatSlice": "1,2,x"}
+	for _, o := range c15Options() {
+		v, ok := bad[o.kind]
+		if !ok {
+			continue
+		}
+		for _, src := range []string{"fabio-env", "file"} {
+			one := map[string]string{o.name: v}
+			var cfg *Config
+			var err error
+			var pm string
+			if src == "fabio-env" {
+				cfg, err, pm = c15Load(dir, nil, one, nil, nil, 0)
+			} else {
+				cfg, err, pm = c15Load(dir, nil, nil, nil, one, 0)
+			}
+			L.Case()
+			L.NontrivialKey("ill-typed " + o.name + src)
+			if pm != "" {
+				L.Violation("load-panics", map[string]interface{}{"option": o.name, "value": v, "source": src, "panic": pm})
+				continue
+			}
+			if err == nil && cfg != nil {
+				L.Violation("ill-typed-value-silently-ignored/"+src, map[string]interface{}{"option": o.name, "kind": o.kind, "value": v, "source": src, "result": "a configuration with the option at its default"})
 			}
 		}
 	}
